@@ -811,28 +811,50 @@ func malleableRun(r *vh.Runner, c *vh.Case, cfg string) {
 		old    int // its plaintext value
 		remain int // bytes of the block after the field
 		what   string
+		narrow bool // a one-byte field (of a name block)
 	}
 	var targets []target
 	cl, ci := len(fix.Raw(w.client.Leaf)), len(fix.Raw(w.client.Int))
 	const clientAuthCerts = 4 + 4 // header, session id
 	targets = append(targets,
-		target{0x05, clientAuthCerts, cl, cl + ci + 2, "ClientAuth:leaf-length"},
-		target{0x05, clientAuthCerts + 2 + cl, ci, ci, "ClientAuth:intermediate-length"})
+		target{0x05, clientAuthCerts, cl, cl + ci + 2, "ClientAuth:leaf-length", false},
+		target{0x05, clientAuthCerts + 2 + cl, ci, ci, "ClientAuth:intermediate-length", false})
 	if w.server != nil {
 		sl, si := len(fix.Raw(w.server.Leaf)), len(fix.Raw(w.server.Int))
 		const serverAuthCerts = 4 + 4 + 32 // header, session id, ephemeral key
 		targets = append(targets,
-			target{0x04, serverAuthCerts, sl, sl + si + 2, "ServerAuth:leaf-length"},
-			target{0x04, serverAuthCerts + 2 + sl, si, si, "ServerAuth:intermediate-length"})
+			target{0x04, serverAuthCerts, sl, sl + si + 2, "ServerAuth:leaf-length", false},
+			target{0x04, serverAuthCerts + 2 + sl, si, si, "ServerAuth:intermediate-length", false})
+	}
+	// the one-byte fields of name blocks (block size, identifier type, label
+	// length): of the server name the client sends encrypted in its ClientAck,
+	// and of the first name inside the client's leaf certificate in ClientAuth
+	label := w.name.Label
+	sniOff := transport.HeaderLen + transport.DHLen + transport.KemKeyLen + transport.PQCookieLen
+	targets = append(targets,
+		target{0x03, sniOff, len(label) + 3, len(label) + 3, "ClientAck:sni-block-size", true},
+		target{0x03, sniOff + 1, int(w.name.Type), 0, "ClientAck:sni-id-type", true},
+		target{0x03, sniOff + 2, len(label), len(label), "ClientAck:sni-label-length", true})
+	if raw, cn := fix.Raw(w.client.Leaf), []byte("client"); bytes.Index(raw, cn) >= 3 {
+		at := clientAuthCerts + 2 + bytes.Index(raw, cn) - 3
+		targets = append(targets,
+			target{0x05, at, len(cn) + 3, len(cn) + 3, "ClientAuth:leaf-name-block-size", true},
+			target{0x05, at + 2, len(cn), len(cn), "ClientAuth:leaf-name-label-length", true})
 	}
 	n := 0
 	for _, t := range targets {
 		values := []int{0, 1, 2, t.remain - 3, t.remain - 2, t.remain - 1, t.remain, t.remain + 1, t.remain + 2, t.old - 1, t.old + 1, 0x7fff, 0x8000, 0xffff}
+		if t.narrow {
+			values = []int{0, 1, 2, 3, 4, 5, t.old - 4, t.old - 3, t.old - 2, t.old - 1, t.old + 1, t.old + 2, t.old + 3, t.old + 4, 0x7f, 0x80, 0xfe, 0xff}
+		}
 		for _, v := range values {
-			if v < 0 || v > 0xffff || v == t.old {
+			if v < 0 || v > 0xffff || v == t.old || (t.narrow && v > 0xff) {
 				continue
 			}
 			mask := t.old ^ v
+			if t.narrow {
+				mask <<= 8 // the single byte is the first of the two XORed below
+			}
 			hcl, ep := w.newClient(w.name, false)
 			caddr := ep.Source()
 			done1 := false
